@@ -10,7 +10,7 @@ LEAN_MODULES = ["MpirProofs.Props.C01_fftring"]
 THEOREMS = ["Mpir.Fft.normmod_val", "Mpir.Fft.mul_2expmod_val", "Mpir.Fft.div_2expmod_val", "Mpir.Fft.adjust_val",
             "Mpir.Fft.butterfly_val", "Mpir.Fft.ifft_butterfly_val",
             "Mpir.Fft.split_bits_val", "Mpir.Fft.combine_bits_eval", "Mpir.Fft.rval_of_small", "Mpir.Fft.split_combine_id",
-            "Mpir.Fft.mulmod_2expp1_basecase_val_partial", "Mpir.Fft.mulmod_Bexpp1_val",
+            "Mpir.Fft.mulmod_2expp1_basecase_val", "Mpir.Fft.mulmod_Bexpp1_val",
             "Mpir.Fft.sqrt2_sq", "Mpir.Fft.adjust_sqrt2_val", "Mpir.Fft.butterfly_sqrt2_val", "Mpir.Fft.ifft_butterfly_sqrt2_val",
             "Mpir.Fft.sqrt2_twiddle_inverse"]
 PINS = [("gmp-impl.h", "mpn_addmod_2expp1_1"),
